@@ -7,7 +7,7 @@ import seeded
 
 key, wtid, k, what = sys.argv[1], sys.argv[2], int(sys.argv[3]), sys.argv[4]
 SRC = os.environ.get("SEEDED_SRC", "/tmp/seed")
-rounds = [seeded.T2, seeded.T3, seeded.T4, seeded.T5, seeded.T6] + [getattr(seeded, n) for n in ("T7", "T8") if hasattr(seeded, n)]
+rounds = [seeded.T2, seeded.T3, seeded.T4, seeded.T5, seeded.T6] + [getattr(seeded, n) for n in ("T7", "T8", "T9") if hasattr(seeded, n)]
 ent = [e for t in rounds for e in t if e[0] == key][0]
 _, _, _, demos, cmd, checks = ent
 out = "%s/%s-out" % (SRC, wtid)
